@@ -51,6 +51,7 @@ structure PA where
   selector : Option Labels            -- `spec.Selector` (nil) / its MatchLabels
   mtls     : PMode                    -- `spec.Mtls` (nil or UNSET = unset)
   ports    : List (Nat × PMode)       -- `spec.PortLevelMtls`
+  rv       : Nat := 1                 -- `ResourceVersion` (UID is namespace/name); only `GetVersion` reads it
   deriving DecidableEq, Repr, Inhabited
 
 /-- `spec.Selector == nil || len(spec.Selector.MatchLabels) == 0`: mesh- or namespace-level policy. -/
@@ -126,12 +127,19 @@ def addLoop (root : String) (st : AddSt) : List PA → AddSt
   | [] => st
   | c :: cs => addLoop root (addStep root st c) cs
 
+/-- What `aggregateVersion` is a hash of: `UID + "." + ResourceVersion` of a config (the sum of the
+    per-config hashes is insensitive to order, so the list is read as a multiset). -/
+abbrev VersionKey := String × String × Nat
+
+def versionKeys (l : List PA) : List VersionKey := l.map (fun p => (p.ns, p.name, p.rv))
+
 /-- `AuthenticationPolicies` (peer part). -/
 structure Authn where
   peerAuths  : List PA
   nsMode     : List (String × MTLS)     -- namespaceMutualTLSMode
   globalMode : MTLS                     -- globalMutualTLSMode
   rootNs     : String
+  version    : List VersionKey := []    -- aggregateVersion (`GetVersion`), before hashing
   deriving Repr
 
 /-- The inherited mode of the second phase of `addPeerAuthentication`. -/
@@ -146,7 +154,9 @@ def initAuthn (root : String) (configs : List PA) : Authn :=
   { peerAuths := st.kept,
     nsMode := st.found.map (resolveNs (inheritedOf st.global)),
     globalMode := st.global,
-    rootNs := root }
+    rootNs := root,
+    -- the hash is accumulated for every config of the loop, also the ones the singleton check skips
+    version := versionKeys (sortByCreation configs) }
 
 /-- `AuthenticationPolicies.GetNamespaceMutualTLSMode`. -/
 def Authn.namespaceMode (a : Authn) (ns : String) : MTLS :=
@@ -238,7 +248,9 @@ def Authn.filterNs (a : Authn) (nss : List String) : Authn :=
   { peerAuths := a.peerAuths.filter (fun c => nss.contains c.ns),
     nsMode := a.nsMode.filter (fun e => nss.contains e.1),
     globalMode := a.globalMode,
-    rootNs := a.rootNs }
+    rootNs := a.rootNs,
+    -- recomputed over the configs of the kept namespaces that are in the map
+    version := versionKeys (a.peerAuths.filter (fun c => nss.contains c.ns)) }
 
 /-- `SidecarScope.selectAuthnPolicies`: what a client proxy in `clientNs` whose sidecar scope imports
     services of the namespaces `importedNs` sees (`proxy.SidecarScope.AuthnPolicies`). -/
@@ -277,5 +289,19 @@ def checkMtlsEnabledIn (a : Authn) (dr : Option DRMode) (epTLS : Bool) (w : Work
   | none =>
     if !epTLS then false
     else a.modeFor w port != .disable
+
+/-- The cluster side of client auto-mTLS (`ClusterBuilder.buildUpstreamTLSSettings` with no
+    DestinationRule TLS settings, auto-mTLS on, in-mesh service): the outbound cluster gets the
+    `tlsMode=istio` transport-socket match unless the inferred service mode is UNKNOWN or DISABLE
+    (`cluster_tls.go`: `serviceMTLSMode == MTLSUnknown || serviceMTLSMode == MTLSDisable` returns nil). -/
+def clusterHasAutoMTLS (serviceMode : MTLS) : Bool := serviceMode != .unknown && serviceMode != .disable
+
+/-- **The composed client decision**: the client proxy originates mutual TLS towards an endpoint iff
+    the cluster carries the TLS transport-socket match (decided from `BestEffortInferServiceMTLSMode`,
+    which sees the namespace and mesh level only) AND the endpoint keeps its `tlsMode=istio` label in
+    EDS (`checkMtlsEnabled`, which resolves the workload- and port-level policies).  `w.ns` is the
+    namespace of the service and of its endpoint. -/
+def clientSendsMTLS (a : Authn) (w : Workload) (port : Nat) : Bool :=
+  clusterHasAutoMTLS (bestEffortServiceMode a w.ns) && checkMtlsEnabledIn a none true w port
 
 end IstioModel.C10
